@@ -205,28 +205,30 @@ def wide_graph(p):
                 "parents": parents, "style": rng.choice(["comma", "comma", "repeat"]),
                 "idpos": rng.choice(["first", "first", "last"]), "name": None}
 
+    # zero-padded: the children's rank by id (the order of an index on the relations) is their number as well
+    T = "t%04d"
     nodes = [node("G", "gene", 0, 1, 20 * n + 50, []), node("G2", "gene", 0, 5, 900, [])]
     for i in range(n):
         ps = ["G"]
         if rng.random() < 0.03:
             ps.insert(rng.randrange(2), "G2")
-        nodes.append(node("t%d" % i, "mRNA", 1, 1 + 20 * i, 18 + 20 * i, ps))
+        nodes.append(node(T % i, "mRNA", 1, 1 + 20 * i, 18 + 20 * i, ps))
     exons = []
     for i in bearing:
         for j in range(rng.randrange(1, 4)):
-            ps = ["t%d" % i]
+            ps = [T % i]
             r = rng.random()
             if r < 0.3:
                 ps.append("G")                                   # shortcut: G -> exon at level 1 and at level 2
             elif r < 0.5:
                 other = rng.choice(bearing)
                 if other != i:
-                    ps.append("t%d" % other)                     # shared child
+                    ps.append(T % other)                     # shared child
             rng.shuffle(ps)
             e = node("e%d.%d" % (i, j), rng.choice(["exon", "exon", "CDS"]), 2, 2 + 20 * i + 5 * j, 5 + 20 * i + 5 * j, ps)
             exons.append(e)
             nodes.append(e)
-    last = [e for e in exons if e["parents"] and ("t%d" % bearing[-1]) in e["parents"]][0]
+    last = [e for e in exons if (T % bearing[-1]) in e["parents"]][0]
     nodes.append(node("part", "match_part", 3, last["start"], last["start"] + 1, [last["id"]]))
     return {"nodes": nodes, "edge": "raw"}
 
